@@ -664,7 +664,14 @@ def run(ctx):
         um = find_all(und, lambda n: n.get("k") == "match")
         if len(um) != 1 or um[0]["e"].get("k") != "bin" or um[0]["e"]["op"] != "&":
             raise NotUnderstood("FaceAttrs::underline is not `match MASK & self.bits`")
-        mask = lit_int(um[0]["e"]["l"]) if lit_int(um[0]["e"]["l"]) is not None else lit_int(um[0]["e"]["r"])
+        mask = None
+        for side in (um[0]["e"]["l"], um[0]["e"]["r"]):
+            mv = eval_const(side, env)
+            if mv is None and is_path(side):
+                mv = env.get(side["p"].split("::")[-1])
+            mask = mv if mask is None else mask
+        if not isinstance(mask, int):
+            raise NotUnderstood("the mask of FaceAttrs::underline (`match MASK & self.bits`) is not a constant")
         decode = {}
         for arm in um[0]["arms"]:
             v = tail(arm["body"]) if arm["body"].get("k") == "block" else arm["body"]
